@@ -755,8 +755,12 @@ func runClusterCase(rng *rand.Rand, thorough bool, out *bufio.Writer, st *stats,
 		runShutdownLitmus(rng, out, st, caseNo)
 		return
 	case 3:
-		if rng.Intn(2) == 0 {
+		switch rng.Intn(4) {
+		case 0, 1:
 			runRejoinLitmus(rng, out, st, caseNo)
+			return
+		case 2:
+			runPromotionLitmus(rng, out, st, caseNo)
 			return
 		}
 	case 2:
@@ -1091,11 +1095,13 @@ func runClusterCase(rng *rand.Rand, thorough bool, out *bufio.Writer, st *stats,
 							x.snaps.mu.Unlock()
 						}
 						time.Sleep(300 * time.Millisecond) // everybody learns the configuration ...
-						allKnow := true
-						for _, x := range c.nodes[1:] { // ... and the check is made only if everybody has: all voters, everywhere
+						allKnow, someStale := true, false
+						for _, x := range c.nodes[1:] { // ... all voters, everywhere?
 							nvx, okx := c.nonVoters(x)
-							if !x.up || !okx || len(nvx) > 0 {
+							if !x.up || !okx {
 								allKnow = false
+							} else if len(nvx) > 0 {
+								someStale = true // this server has not learnt the committed configuration yet
 							}
 						}
 						if lnow := c.leader(); lnow == nil {
@@ -1105,6 +1111,9 @@ func runClusterCase(rng *rand.Rand, thorough bool, out *bufio.Writer, st *stats,
 							ci, _ := strconv.Atoi(sts["commit_index"])
 							li, _ := strconv.Atoi(sts["latest_configuration_index"])
 							if li > ci { // the configuration in force is not committed yet
+								allKnow = false
+							}
+							if nvl, okl := c.nonVoters(lnow); !okl || len(nvl) > 0 {
 								allKnow = false
 							}
 						}
@@ -1129,7 +1138,13 @@ func runClusterCase(rng *rand.Rand, thorough bool, out *bufio.Writer, st *stats,
 								okW = 1
 							}
 						}
-						c.h.rec("MAJ %d %d %d", c.h.now(), len(stopped), okW)
+						if someStale {
+							// the known gap F20: a server that has not learnt a committed promotion refuses its
+							// vote to the promoted server; recorded under its own name
+							c.h.rec("MAJS %d %d %d", c.h.now(), len(stopped), okW)
+						} else {
+							c.h.rec("MAJ %d %d %d", c.h.now(), len(stopped), okW)
+						}
 						if okW == 0 {
 							var b strings.Builder
 							c.mu.Lock()
@@ -1908,6 +1923,92 @@ func runRejoinLitmus(rng *rand.Rand, out *bufio.Writer, st *stats, caseNo int) {
 		}
 		c.h.rec("REJOIN %d %d %d %d %d %d %d", x.id, t0, l.id, term0, c.h.now(), lid, term1)
 		st.Hist[fmt.Sprintf("rejoin-litmus legacy-headers=%v idle=%v", c.legacy, idle)]++
+	}
+	h.rec("HEALALL %d", h.now())
+	h.rec("Q %d", h.now())
+	time.Sleep(15 * time.Second)
+	for k := 0; k < 3; k++ {
+		if l := c.leader(); l != nil {
+			c.apply(l, "a")
+		}
+		time.Sleep(300 * time.Millisecond)
+	}
+	time.Sleep(2 * time.Second)
+	c.wg.Wait()
+	c.dump("final")
+	c.mu.Lock()
+	c.stopped = true
+	c.mu.Unlock()
+	for _, n := range c.nodes[1:] {
+		if n.up {
+			c.crash(n)
+		}
+	}
+	h.mu.Lock()
+	lines := h.lines
+	h.mu.Unlock()
+	fmt.Fprintf(out, "CL %d %d\n", caseNo, nsrv)
+	fmt.Fprintln(out, strconv.Itoa(len(lines))+" ; "+strings.Join(lines, " ; "))
+	st.Cases++
+	st.Distinct++
+}
+
+// runPromotionLitmus (C12): server 3 starts as a non-voter and is cut off; the leader promotes it with
+// the other voter's help; the leader is stopped; 3 is reconnected.  The two running servers are a
+// majority of the committed configuration: the voter among them must be elected with the vote of 3,
+// although 3 has not heard of its own promotion (and, not being a voter as far as it knows, does not
+// campaign itself).
+func runPromotionLitmus(rng *rand.Rand, out *bufio.Writer, st *stats, caseNo int) {
+	h := &hist{t0: time.Now(), seenS: map[string]bool{}}
+	nsrv := 3
+	c := &cluster{rng: rng, h: h, blocked: map[[2]int]bool{}, holdMs: map[[2]int]int{}, delayMs: 1 + rng.Intn(3)}
+	_, c.inj = raft.NewInmemTransportWithTimeout("inj", 80*time.Millisecond)
+	c.nodes = []*cnode{nil}
+	var cfg raft.Configuration
+	for i := 1; i <= nsrv; i++ {
+		c.nodes = append(c.nodes, &cnode{id: i, addr: addrOf(i), st: &cstore{InmemStore: raft.NewInmemStore()}, snaps: &snapStore{c: &ctl{failAt: -1, crashAt: -1}}})
+		suff := raft.Voter
+		if i == 3 {
+			suff = raft.Nonvoter
+		}
+		cfg.Servers = append(cfg.Servers, raft.Server{Suffrage: suff, ID: sidOf(i), Address: addrOf(i)})
+	}
+	h.rec("C %d 0", nsrv)
+	for _, n := range c.nodes[1:] {
+		c.startNodeP(n)
+	}
+	_ = c.nodes[1].r.BootstrapCluster(cfg).Error()
+	time.Sleep(600 * time.Millisecond)
+	for k, m := 0, 1+rng.Intn(4); k < m; k++ {
+		if l := c.leader(); l != nil {
+			c.apply(l, "a")
+		}
+		time.Sleep(20 * time.Millisecond)
+	}
+	if l := c.leader(); l != nil {
+		c.isolate(3, true)
+		time.Sleep(time.Duration(rng.Intn(200)) * time.Millisecond)
+		err := l.r.AddVoter(sidOf(3), addrOf(3), 0, time.Second).Error()
+		time.Sleep(100 * time.Millisecond)
+		if err == nil {
+			c.crash(l)
+			time.Sleep(time.Duration(rng.Intn(300)) * time.Millisecond)
+			c.isolate(3, false)
+			time.Sleep(3 * time.Second)
+			okW := 0
+			if l2 := c.leader(); l2 != nil {
+				cid := c.apply(l2, "a")
+				time.Sleep(500 * time.Millisecond)
+				if c.codeOf(cid) == 0 {
+					okW = 1
+				}
+			}
+			c.h.rec("MAJ %d %d %d", c.h.now(), 1, okW)
+			st.Hist["promotion-litmus"]++
+			c.startNodeP(l)
+		} else {
+			c.isolate(3, false)
+		}
 	}
 	h.rec("HEALALL %d", h.now())
 	h.rec("Q %d", h.now())
